@@ -102,6 +102,17 @@ Theorem C14_async_any_order : forall mc0 answers,
 Proof. exact check_all_secondaries_spec. Qed.
 Print Assumptions C14_async_any_order.
 
+(* the nonAsyncCommitLock fallback, again for every delivery order: some "all locked" answer holds a lock that is not an
+   async-commit lock => fallback (force-sync status check of the primary; in the store model: Model.fallback_now,
+   the primary is rolled back and so is the transaction -- C14_no_old_lock / C14_outcomes_kept are proved over
+   populations that mix async-commit and plain prewrite locks of one transaction); otherwise as above *)
+Theorem C14_async_fallback : forall mc0 answers,
+  ((exists mcs, In (RLocked mcs, true) answers) -> check_all_secondaries_f mc0 answers = CasFallback) /\
+  ((forall mcs, ~ In (RLocked mcs, true) answers) ->
+   check_all_secondaries_f mc0 answers = match check_all_secondaries mc0 (map fst answers) with Some c => CasDecided c | None => CasError end).
+Proof. exact check_all_secondaries_f_spec. Qed.
+Print Assumptions C14_async_fallback.
+
 (* ---- PrimaryMismatch: with TiKV's primary check (collect_v) the status round of BatchResolveLocks never
    fails on a reachable store whose primaries are well formed, and then equals the unchecked round (collect).
    Without that (ex_mismatch below: a pessimistic lock whose primary pointer names a key holding a SECONDARY
@@ -118,6 +129,29 @@ Theorem C14_reads_kept : forall st0 sp k ts,
   read_at (resolve_all st0 sp) k ts = read_at st0 k ts.
 Proof. exact read_at_unchanged. Qed.
 Print Assumptions C14_reads_kept.
+
+(* ... and so after ANY resolve-locks pass (any sub-ranges, any order, any interference): a snapshot read, at any ts
+   and in particular at or above the safe point, of a key that held no lock with start <= sp returns what it
+   returned before; keys that held such a lock read as their transaction decided (C14_outcomes_kept + C14_resolved_record) *)
+Theorem C14_reads_kept_pass : forall st0 sp limit fuel tasks st' k ts,
+  wf_store st0 -> (0 < limit)%nat -> Forall (fun t => Forall (oracle_ok st0 sp) (snd t)) tasks ->
+  gc_pass fuel sp limit tasks st0 = Some st' ->
+  (forall r, find_key st0 k = Some r -> old_lock sp r = false) -> read_at st' k ts = read_at st0 k ts.
+Proof. exact gc_pass_reads_kept. Qed.
+Print Assumptions C14_reads_kept_pass.
+
+(* ---- KVStore.GC(expected) when PD grants a lower txn safe point (GC barrier): locks are resolved up to the CLAMPED
+   safe point min(expected, granted), which is also what is reported: nothing holding only locks above it is touched *)
+Theorem C14_gc_clamped : forall st0 expected granted limit fuel tasks st' sp',
+  wf_store st0 -> (0 < limit)%nat ->
+  Forall (fun t => Forall (oracle_ok st0 (gc_safe_point expected granted)) (snd t)) tasks ->
+  gc_full fuel expected granted limit tasks st0 = Some (st', sp') ->
+  sp' = N.min expected granted /\
+  (forall r0, In r0 st0 -> old_lock sp' r0 = false -> In r0 st') /\
+  (forall r, In r st' -> covered (map fst tasks) (k_key r) = true -> old_lock sp' r = false) /\
+  ((forall k, covered (map fst tasks) k = true) -> st' = resolve_all st0 sp').
+Proof. exact gc_full_clamped. Qed.
+Print Assumptions C14_gc_clamped.
 
 (* ---- delete range: whatever the layouts, exactly the keys of [s,e) are removed (nothing for notify-only),
    and the requests sent tile the range *)
@@ -212,6 +246,19 @@ Example ex_async_gc : exists tr,
   = GcOk [ mkRec (ex_k 1) None [mkWrite 10 14 (Some [1])]; mkRec (ex_k 2) None [mkWrite 10 14 (Some [2])]; mkRec (ex_k 3) None [mkWrite 10 14 None];
            mkRec (ex_k 4) None []; mkRec (ex_k 5) None []; mkRec (ex_k 6) None [] ] tr.
 Proof. eexists. vm_compute. reflexivity. Qed.
+(* mixed population after the owner's fallback to 2PC: async primary k1, async secondary k2, PLAIN prewrite lock on k3:
+   all still locked => nonAsyncCommitLock fallback => everything rolled back (the primary by the forced status check) *)
+Definition ex_mixed : store :=
+  [ mkRec (ex_k 1) (Some (mkLockA 10 (ex_k 1) LPut [1] true 11 [ex_k 2; ex_k 3])) [];
+    mkRec (ex_k 2) (Some (mkLockA 10 (ex_k 1) LPut [2] true 14 [])) [];
+    mkRec (ex_k 3) (Some (mkLock 10 (ex_k 1) LPut [3])) [] ].
+Example ex_mixed_wf : wf_store ex_mixed.
+Proof. apply wf_storeb_wf. vm_compute. reflexivity. Qed.
+Example ex_mixed_gc : exists tr,
+  gc_resolve_range 20 50 1 [] [] (map (fun loc => mkOracle loc [] [] (Some loc)) [([], ex_k 2); ([], ex_k 2); (ex_k 2, []); (ex_k 2, []); (ex_k 2, [])]) ex_mixed
+  = GcOk [ mkRec (ex_k 1) None []; mkRec (ex_k 2) None []; mkRec (ex_k 3) None [] ] tr
+  /\ fst (status_check ex_mixed (ex_k 1) 10) = mkRec (ex_k 1) None [] :: tl ex_mixed.
+Proof. eexists. vm_compute. split; reflexivity. Qed.
 Example ex_async_orders :   (* the three delivery orders of "region A all locked (22, 25), region B missing: rolled back" *)
   check_all_secondaries 21 [RLocked [22; 25]; RMissing 0] = Some 0 /\ check_all_secondaries 21 [RMissing 0; RLocked [22; 25]] = Some 0 /\
   check_all_secondaries 21 [RLocked [22]; RLocked [25]] = Some 25.
@@ -227,6 +274,10 @@ Example ex_mismatch_unchecked :   (* without the check (mocktikv) the committed 
   fst (collect ex_mismatch [mkRec (ex_k 1) (Some (mkLock 10 (ex_k 2) LPess [])) []] [])
   = [ mkRec (ex_k 1) None []; mkRec (ex_k 2) None []; mkRec (ex_k 3) None [mkWrite 10 15 (Some [3])] ].
 Proof. vm_compute. reflexivity. Qed.
+Example ex_gc_clamped :   (* expected 95 would also resolve the lock of start 90; PD grants 50 *)
+  option_map snd (gc_full 20 95 50 1 [(([], []), ex_os)] ex_store) = Some 50 /\
+  option_map fst (gc_full 20 95 50 1 [(([], []), ex_os)] ex_store) = Some (resolve_all ex_store 50).
+Proof. vm_compute. auto. Qed.
 Example ex_partition :
   run_on_range (batch_end_of [[ex_k 3; ex_k 5]; [ex_k 3; ex_k 4; ex_k 5]] 1) 10 (ex_k 2) [] =
   Some [(ex_k 2, ex_k 3); (ex_k 3, ex_k 4); (ex_k 4, ex_k 5); (ex_k 5, [])].
